@@ -1,4 +1,5 @@
 """Per-property configuration of the check driver."""
+import translate
 SPECS = {
     "C13": {
         "id": "C13", "runners": ["RunC13"],
@@ -91,5 +92,10 @@ SPECS = {
         "id": "C09", "runners": ["RunC09"],
         "info_meaning": "[cases read by the parser model; cases whose tree is compared with the printer model; cases the crate accepts]",
         "assumptions": ["identifiers and white space of the type mini language are modelled for ASCII text (the printer only emits ASCII names); trees with non-ASCII text are judged by the Rust-side round trips only", "time zone text is printed with Rust's {:?}: the model covers quote and backslash escapes; control and non-ASCII characters (\\u{..} escapes) are judged by the Rust-side round trips", "arrow / arrow2 field conversions are marrow's (external): differential only"],
+    },
+    "C18": {
+        "id": "C18", "runners": ["RunC18"], "translators": [translate.annot_table],
+        "info_meaning": "[serialization faults; deserialization faults; faults below the top level]",
+        "assumptions": ["annotations are read from the Display text of the error (the only public view of them)", "the data_type text is the one the Context impl of the builder/reader sets (List vs List(..) differ between the two sides; both name the Arrow type)", "top-level field names are joined raw by the builders ($. for an empty name) and through ChildName by the readers ($.<empty>)"],
     },
 }
